@@ -1,7 +1,7 @@
 """C20 - messages are well-formed OpenPGP compositions and keep content and metadata (DESIGN.md 3/C20)."""
 from datetime import datetime, timezone
 
-from vlib.h import ob
+from vlib.h import ob, native
 from harness.sigfix import *          # noqa
 from harness import encfix
 from harness.encfix import Cipher, Feed
@@ -229,7 +229,7 @@ def compression_wrapper(ci: int, n: int, content: bytes) -> bool:
 
 # ------------------------------------------------------------------------------------ O20.4 foreign encodings
 @ob('O20.4', 'foreign encodings: a literal packet with an old-format header (1/2/4-octet length) or new-format partial body lengths imports to the same content',
-    'header form from {old-1, old-2, old-4, new-5-octet, partial 2+1+rest, one partial chunk of 2^16 octets + rest}; content of 3..5 symbolic octets (followed by concrete filler in the last form)',
+    'header form from {old-1, old-2, old-4, new-5-octet, partial 2+1+rest, one partial chunk of 2^16 octets + rest}; content of 3..5 symbolic octets (last form: first octet from {00,01,80,FF} by symbolic choice, then 64 KiB of concrete filler, run natively)',
     cond_timeout={'q': 280, 't': 900}, partitions=[['form == %d' % i] for i in range(6)])
 def foreign_literal(form: int, content: bytes) -> bool:
     """
@@ -238,12 +238,21 @@ def foreign_literal(form: int, content: bytes) -> bool:
     post: _
     """
     if form == 5:
-        filler = bytes((i * 7 + 1) % 250 for i in range(65536 + 3))
-        content = bytes(content) + filler
-        body = b'b\x00\x00\x00\x00\x00' + content
-        pkt = bytes([0xCB, 0xF0]) + body[:65536] + bytes([len(body) - 65536]) + body[65536:]
-        rx = PGPMessage.from_blob(pkt)
-        return bytes(rx.message) == bytes(content) and rx._message.format == 'b'
+        # 64 KiB of symbolic structure does not finish: the content is concrete filler behind one octet picked per path, and runs natively
+        first = 0
+        for k, v in enumerate((0, 1, 0x80, 0xFF)):
+            if content[0] % 4 == k:
+                first = v
+        with native():
+            filler = bytes((i * 7 + 1) % 250 for i in range(65536 + 3))
+            data = bytes([first]) + filler
+            body = b'b\x00\x00\x00\x00\x00' + data
+            pkt = bytes([0xCB, 0xF0]) + body[:65536] + bytes([len(body) - 65536]) + body[65536:]
+            rx = PGPMessage.from_blob(pkt)
+            if bytes(rx.message) != data or rx._message.format != 'b':
+                return False
+            out = split_packets(bytes(rx.__bytearray__()))
+            return out is not None and len(out) == 1 and out[0][0] == 11 and bytes(out[0][1][6:]) == data
     body = b'b\x00\x00\x00\x00\x00' + bytes(content)
     n = len(body)
     if form == 0:
